@@ -8,6 +8,7 @@ CFG = dict(
         # shipped -O2 -DNDEBUG build: secure zero / nospec mask are optimiser dependent; no library
         # pre/post-conditions, so the harness's own shadow model and canaries are the only oracle here
         seq("rel", "rel", "c01_bytebuf.c", 40000, 3000000),
+        seq("asan_latin1", "asan", "c01_bytebuf.c", 20000, 500000, env={"VERIF_LOCALE": "latin1"}),  # 8-bit libc locale: results must not change
     ],
     rule=("case = 1-3 initialisations + 1-60 PRNG-chosen calls from byte_buf.h on a pool of 5 buffers (dynamic from the guard "
           "allocator with and without realloc entry point, static views over canary-fenced arrays, zero-capacity, "
